@@ -146,9 +146,59 @@ def rule_accum(ctx, py):
     # explicit blank keeps empty tokens for repeated blanks and does not cut at a tab
     splits = [c for c in ast.walk(f) if isinstance(c, ast.Call) and isinstance(c.func, ast.Attribute) and
               c.func.attr in ("split", "rsplit", "partition", "rpartition")]
+    rx = [c for c in ast.walk(f) if isinstance(c, ast.Call) and pyfe.call_name(c) in ("re.fullmatch", "re.match", "re.search",
+                                                                                    "re.compile", "re.findall", "re.split")]
+    if len(splits) < 3 and rx:
+        # a term parsed by a regular expression: the coefficient (digits) and the label must be separated by at least one
+        # whitespace character, otherwise the leading digits of a label ("2PG", "5HT") are taken for its coefficient
+        import re._parser as sre
+        for c in rx:
+            pat = c.args[0] if c.args else None
+            ctx.need(isinstance(pat, ast.Constant) and isinstance(pat.value, str), R, "_fromstring: regular expression is not a literal")
+            try:
+                tree = list(sre.parse(pat.value))
+            except Exception as e:
+                ctx.error(R, "_fromstring: regular expression does not parse: %s" % e)
+
+            def flat(items):
+                out = []
+                for op, av in items:
+                    out.append((op, av))
+                return out
+            items = flat(tree)
+            # locate: <group of digits> <whitespace repeat> <group of non-blanks>; the digits+whitespace may sit in an optional group
+            def is_digits(av):
+                return "DIGIT" in str(av) or "RANGE, (48, 57)" in str(av)
+
+            def ws_min(items_):
+                for op, av in items_:
+                    if str(op) in ("MAX_REPEAT", "MIN_REPEAT") and "CATEGORY_SPACE" in str(av[2]) and "NOT_SPACE" not in str(av[2]):
+                        return av[0]
+                return None
+            seq = items
+            okk, why = False, "pattern shape not recognised"
+            digit_idx = next((i for i, (op, av) in enumerate(seq) if is_digits(av)), None)
+            if digit_idx is not None:
+                op, av = seq[digit_idx]
+                inner = None
+                if str(op) == "SUBPATTERN" and av[3] is not None and any("CATEGORY_SPACE" in str(x) and "NOT_SPACE" not in str(x)
+                                                                          for x in av[3]):
+                    inner = list(av[3])          # (?:(\d+)\s+)  -- whitespace inside the same optional group
+                if str(op) in ("MAX_REPEAT",) and av[0] == 0 and av[1] == 1:
+                    inner = list(av[2])          # optional group
+                m_ = ws_min(inner) if inner is not None else ws_min(seq[digit_idx + 1:digit_idx + 2])
+                okk = m_ is not None and m_ >= 1
+                why = "between the coefficient digits and the label the pattern requires %s whitespace characters" % (
+                    "at least %d" % m_ if m_ is not None else "no")
+            ctx.check(okk, R, c, f._qual, "term pattern %r" % pat.value, "coefficient and label separated by whitespace", why +
+                      ": the leading digits of a label are read as its coefficient (`2PG` becomes 2 x `PG`)")
+        splits = splits + rx
     ctx.need(len(splits) >= 3, R, "_fromstring: the three tokenisation steps ('->', '+', blanks) are not all found")
     seps = []
     for c in splits:
+        if c in rx:
+            seps.append("<none>")
+            continue
         sep = c.args[0] if c.args else next((k.value for k in c.keywords if k.arg == "sep"), None)
         sv = sep.value if isinstance(sep, ast.Constant) else ("<none>" if sep is None else "<expr>")
         if isinstance(sep, ast.Constant) and sep.value is None:
